@@ -33,7 +33,8 @@ def tiny_load_mask(cond):
     if len(p) != 2 or p.get(S.ONE) != Fraction(1, 1000000):
         return False
     (m, c), = [(m, c) for m, c in p.items() if m != S.ONE]
-    return c == -1 and len(m) == 1 and m[0][1] == 1 and S.A.kind[m[0][0]] == 'rad' and S.A.info[m[0][0]][0] == 2
+    # |x| is c' * sqrt(polynomial) with a positive constant c' pulled out of the root
+    return c < 0 and len(m) == 1 and m[0][1] == 1 and S.A.kind[m[0][0]] == 'rad' and S.A.info[m[0][0]][0] == 2
 _ANGLE_DEG = re.compile(r"(^|\.)(alpha|beta)(\[|$)")
 import mpmath
 MP = mpmath.mp.clone()
